@@ -805,7 +805,16 @@ func symSqrt(fr *frame, a []value) value {
 			if pc.branch("(< " + x.t + " 0.0)") {
 				return math.NaN()
 			}
+			if pc.sqrtCache == nil {
+				pc.sqrtCache = map[string]string{}
+			}
+			if n, ok := pc.sqrtCache[x.t]; ok && pc.merge == nil {
+				return sym{k: skReal, bk: types.Float64, t: n}
+			}
 			n := pc.fresh_("sqrt")
+			if pc.merge == nil {
+				pc.sqrtCache[x.t] = n
+			}
 			pc.declare(n, "Real")
 			pc.assert("(and (>= " + n + " 0.0) (= (* " + n + " " + n + ") " + x.t + "))")
 			return sym{k: skReal, bk: types.Float64, t: n}
